@@ -177,6 +177,9 @@ Emit(c, s) ==
     /\ out' = Broadcast(s, Fwd(uid[c], "signal", <<"b", s>>))
     /\ UNCHANGED <<uid, nextId, queue, allow, rules>>
 
+(* every order in which the names can be gone through *)
+NameOrders == {f \in [1..Cardinality(Name) -> Name] : \A i, j \in 1..Cardinality(Name) : i # j => f[i] # f[j]}
+
 (* the connection goes away: it leaves every queue (successors are told), its rules are dropped *)
 Disconnect(c) ==
     /\ Live(c)
@@ -184,12 +187,11 @@ Disconnect(c) ==
     /\ queue' = [n \in Name |-> Leave(queue[n], c)]
     /\ allow' = [allow EXCEPT ![c] = [n \in Name |-> FALSE]]
     /\ rules' = [rules EXCEPT ![c] = <<>>]
-    /\ out' = [x \in Client |->
-                 LET got == {n \in Name : Successor(n, c) = x /\ x # c}
-                     RECURSIVE Seqs(_)          \* in ascending name order (names are numbers)
-                     Seqs(S) == IF S = {} THEN <<>> ELSE LET n == CHOOSE n \in S : \A m \in S : n <= m
-                                                          IN <<SigTo("NameAcquired", n)>> \o Seqs(S \ {n})
-                 IN Seqs(got)]
+    /\ \E ord \in NameOrders :        \* successors are told name by name, in no prescribed order of the names
+         out' = [x \in Client |->
+                   LET got == {n \in Name : Successor(n, c) = x /\ x # c}
+                       mine == SelectSeq(ord, LAMBDA n : n \in got)
+                   IN [i \in 1..Len(mine) |-> SigTo("NameAcquired", mine[i])]]
     /\ nextId' = nextId
 
 Next ==
